@@ -32,6 +32,12 @@ def load_prop(pid):
 def main():
     args = json.loads(sys.argv[1])
     faulthandler.enable()
+    try:
+        import resource
+        lim = int(os.environ.get("VERIF_WORKER_MEM", 6 * 2 ** 30))
+        resource.setrlimit(resource.RLIMIT_AS, (lim, lim))     # a runaway SUT must not take the sandbox down
+    except Exception:
+        pass
     if args.get("wall_limit"):
         faulthandler.dump_traceback_later(args["wall_limit"], exit=True)
     import d42
@@ -93,6 +99,8 @@ def main():
         for v in res["violations"]:
             v["case_index"] = idx
             lst = viol_by_sig.setdefault((v["sig_id"], v.get("kf")), [])
+            if not lst:
+                emit({"type": "violation_raw", "v": v})      # survives a worker that dies while minimising
             if len(lst) < 3:
                 lst.append(v)
             else:
